@@ -285,6 +285,15 @@ func runCsvRaw(w *tx.W, d csvDoc, sched []int, eofWithData bool, failAt int, fwd
 }
 
 func csvRawSection(r *tx.Rng, w *tx.W, size int, opt map[string]string) {
+	if opt["wit"] != "" {
+		// the recorded (open) findings of this section, replayed deterministically on every run
+		for _, doc := range []string{"a,b\n\"x\r\ny\",z\n", "a,b\nx,"} {
+			d := csvDoc{delim: ',', doc: []byte(doc)}
+			runCsvRaw(w, d, nil, false, -1, false)
+			runCsvRaw(w, d, []int{1, 1, 1, 1, 1, 1, 1, 1, 1, 1, 1, 1, 1, 1, 1, 1, 1, 1, 1, 1}, false, -1, false)
+		}
+		return
+	}
 	var d csvDoc
 	if r.P(1, 25) {
 		d = genCsvDocCRInQuotes(r)
